@@ -32,13 +32,15 @@ func (d *Drv) ecsEvent(ev EvType) ecs.EventType {
 	return d.Custom[ev-EvCustom0]
 }
 
-func (d *Drv) regObs(op *Op) {
-	slot := op.Slot
+func (d *Drv) regObs(op *Op) { d.regObsWith(op.Slot, op.Obs) }
+
+// regObsWith registers the observer of a slot; with a spec a new observer object is built first.
+func (d *Drv) regObsWith(slot int, newSpec *ObsSpec) {
 	for len(d.Obs) <= slot {
 		d.Obs = append(d.Obs, obsInst{})
 	}
-	if op.Obs != nil {
-		spec := *op.Obs
+	if newSpec != nil {
+		spec := *newSpec
 		inst := obsInst{}
 		cb := func(h ecs.Entity, ptrs typed.Ptrs) { d.onEvent(slot, &spec, h, ptrs) }
 		if spec.Tuple >= 0 {
@@ -113,6 +115,11 @@ func (d *Drv) unregObs(slot int) {
 // onEvent is the body of every observer callback.
 func (d *Drv) onEvent(slot int, spec *ObsSpec, h ecs.Entity, ptrs typed.Ptrs) {
 	d.Stat.ObsFired++
+	if i := d.regDuringIdx(slot); i >= 0 && d.regDuring[i].ev == spec.Ev && d.regDuring[i].h == h {
+		// whether an observer is called must not depend on what else is (or was) registered: the dispatch of this very
+		// event had begun before the observer existed
+		d.viol("C08", "called-for-earlier-event", "observer %d, registered from inside a callback for %v of %v, was called for that same event of that same entity (%s)", slot, spec.Ev, h, d.cur.Op.K)
+	}
 	if d.isUnregDuring(slot) {
 		// Unregister returned earlier during this operation (from inside a callback): the observer is not registered
 		// any more, whatever the dispatch in progress had planned
@@ -167,7 +174,35 @@ func (d *Drv) onEvent(slot int, spec *ObsSpec, h ecs.Entity, ptrs typed.Ptrs) {
 		d.unregDuring = append(d.unregDuring, spec.UnregOther)
 		d.unregObs(spec.UnregOther)
 	}
+	if s := spec.RegNext - 1; s >= 0 && s != slot && (s >= len(d.M.Obs) || !d.M.Obs[s].Registered) && !d.isUnregDuring(s) && d.regDuringIdx(s) < 0 && len(d.regDuring) < 2 {
+		// a fresh wildcard observer of the same event type is registered from inside the callback: from the next dispatch
+		// on it fires like any other; the event being dispatched right now was there before it
+		ns := ObsSpec{Ev: spec.Ev, Tuple: -1, UnregOther: -1}
+		d.regDuring = append(d.regDuring, RegRec{Slot: s, Spec: ns, ev: spec.Ev, h: h})
+		d.Stat.RegInCallback++
+		d.regObsWith(s, &ns)
+	}
 }
+
+// RegRec records an observer registered from inside a callback during the running op.
+type RegRec struct {
+	Slot int
+	Spec ObsSpec
+	ev   EvType
+	h    ecs.Entity
+}
+
+func (d *Drv) regDuringIdx(slot int) int {
+	for i := range d.regDuring {
+		if d.regDuring[i].Slot == slot {
+			return i
+		}
+	}
+	return -1
+}
+
+// RegDuring lists the observers registered from inside callbacks during the last op.
+func (d *Drv) RegDuring() []RegRec { return d.regDuring }
 
 func (d *Drv) isUnregDuring(slot int) bool {
 	for _, s := range d.unregDuring {
